@@ -164,7 +164,9 @@ func (c *c15) opSendJoinPseudo() {
 			mapFault = k
 		case "mapping_user_of_other_server":
 			// a user of another server, vouched for by that server: a valid mapping, but not the requester's user
-			if mapFault != "" || mapSigner != J {
+			// (not on top of a signing-key fault: this one replaces signer and
+			// key, and the mapping would be validly signed after all)
+			if mapFault != "" || mapSigner != J || sigFaulted {
 				continue
 			}
 			o := c.third()
